@@ -346,17 +346,58 @@ def do_step(op, rng, pytrs, kept, ctx, case):
             for k in list(dct):
                 dct[k] = 'JUNK'
             dct['extra'] = 1
-        d = P("T154-R97 Sec 14: Lots 1 - 3, NE/4, Sec 15: W/2", parse_qq=True)
-        for row in d.tracts_to_list('lots', 'qqs', 'w_flags', 'lot_acres'):
+        txt = ("T154-R97 Sec 14: Lots 1 - 3, Lot 2(40.1), NE/4, NE/4, less "
+               "and except the well, Sec 15: W/2")
+        d = P(txt, parse_qq=True)
+        names = ('lots', 'qqs', 'lots_qqs', 'w_flags', 'w_flag_lines',
+                 'e_flags', 'e_flag_lines', 'lot_acres', 'ilots')
+
+        def junk(cell):
+            if isinstance(cell, list):
+                cell.append('JUNK')
+            elif isinstance(cell, dict):
+                cell['JUNK'] = 1
+        for row in d.tracts_to_list(*names):
             for cell in row:
-                if isinstance(cell, list):
-                    cell.append('JUNK')
-                elif isinstance(cell, dict):
-                    cell['JUNK'] = 1
-        for rec in d.tracts_to_dict('trs', 'lots', 'twp'):
+                junk(cell)
+        for row in d.iter_to_list(*names):
+            for cell in row:
+                junk(cell)
+        for rec in list(d.tracts_to_dict(*names)) + list(d.iter_to_dict(*names)):
+            for cell in rec.values():
+                junk(cell)
             rec['trs'] = 'JUNK'
+        for t in d.tracts:
+            for cell in t.to_dict(*names).values():
+                junk(cell)
+            for cell in t.to_list(*names):
+                junk(cell)
         td = d.tracts[0].to_dict('trs', 'qqs', 'lot_acres')
         td.clear()
+        # The description whose conversion results were modified is still
+        # the description a fresh parse gives -- now, and after a re-parse.
+        ctx.hit('fresh-object')
+
+        def state(x):
+            return json.loads(json.dumps(
+                [[t.trs, t.desc, t.lots, t.qqs, t.lots_qqs, sorted(t.w_flags),
+                  sorted(map(str, t.w_flag_lines)), sorted(t.e_flags),
+                  sorted(t.lot_acres.items())] for t in x.tracts]
+                + [sorted(x.w_flags), sorted(x.e_flags)], default=str))
+        ref = P(txt, parse_qq=True)
+        for label in ('after modifying returned lists/dicts',
+                      'and after parse_tracts()'):
+            a, b = state(d), state(ref)
+            if a != b:
+                i, x, y = first_diff(a, b)
+                ctx.violation(
+                    'result-depends-on-modified-return-value', case,
+                    f"{label}: tract #{i} of the description is "
+                    f"{short(repr(x), 200)}, a fresh description gives "
+                    f"{short(repr(y), 200)}", dedup=label)
+                break
+            d.parse_tracts()
+            ref.parse_tracts()
         g = d.group_by('twprge')
         for v in g.values():
             while len(v):
